@@ -104,9 +104,10 @@ def conc_profile(o, race=False):
         if env.get("VERIF_MODE") == "replay":
             env["VERIF_MODE"] = "concreplay"
         ok, out = _run_bin(b, env)
-        conc_profile.last_output = out
+        if env.get("VERIF_MODE") == "conc":
+            conc_profile.last_output = out   # the generator's statistics (replays during shrinking do not overwrite them)
         return ok, out
-    return Profile("conc", run, "concdriver", driver_args=(disc,))
+    return Profile("sched", run, "concdriver", driver_args=(disc,))
 
 
 conc_profile.last_output = ""
@@ -193,11 +194,11 @@ def check_C11(o, tier):
     check_corpus(o, prof, "C11", C11Monitors())
     thorough = tier == "thorough"
     # all schedules of the curated cases (bounded per case), both stores
-    forced(o, prof, "mem", "curated", 0, 4000 if thorough else 300, "conc-curated-mem")
-    forced(o, prof, "dir", "curated", 0, 400 if thorough else 20, "conc-curated-dir")
+    forced(o, prof, "mem", "curated", 0, 4000 if thorough else 300, "sched-curated-mem")
+    forced(o, prof, "dir", "curated", 0, 400 if thorough else 20, "sched-curated-dir")
     # random cases, random schedules
-    forced(o, prof, "mem", "random", 12000 if thorough else 2500, 60, "conc-random-mem")
-    forced(o, prof, "dir", "random", 1500 if thorough else 200, 60, "conc-random-dir")
+    forced(o, prof, "mem", "random", 12000 if thorough else 2500, 60, "sched-random-mem")
+    forced(o, prof, "dir", "random", 1500 if thorough else 200, 60, "sched-random-dir")
     prof.cleanup()
     # free running
     stress(o, False, "mem", 3000 if thorough else 150, "stress-mem")
@@ -207,7 +208,7 @@ def check_C11(o, tier):
         stress(o, True, "dir", 150, "stress-dir-race")
         rp = conc_profile(o, race=True)
         if rp is not None:
-            forced(o, rp, "mem", "curated", 0, 150, "conc-curated-mem-race")
+            forced(o, rp, "mem", "curated", 0, 150, "sched-curated-mem-race")
             rp.cleanup()
     t = o.notes.get("totals", {})
     o.notes["summary"] = ("%d cases, %d forced schedules (= distinct interleavings), %d cases enumerated completely, %d capped; "
@@ -216,4 +217,4 @@ def check_C11(o, tier):
 
 
 CHECKS = {"C11": check_C11}
-PROFILES = {"conc": conc_profile}
+PROFILES = {"sched": conc_profile}
